@@ -96,6 +96,12 @@ impl Arena {
         self.delegate_target().offset()
     }
 
+    /// `(base address, capacity, committed bytes, offset)`; read-only.
+    #[cfg(feature = "verif-hooks")]
+    pub fn verif_state(&self) -> (usize, usize, usize, usize) {
+        self.delegate_target_unchecked().verif_state()
+    }
+
     #[allow(clippy::missing_safety_doc)]
     pub unsafe fn reset(&self, to: usize) {
         unsafe { self.delegate_target().reset(to) }
